@@ -193,7 +193,10 @@ def run_check(pid: str, tier: str, seed: int) -> int:
     ev["violations"] = n_viol
     ev["wall_s"] = round(time.time() - ctx.t0, 1)
     cov["broken"] = [b["what"] for b in broken]
-    core.write_json(VERIF / "evidence" / f"{pid}.json", ev)
+    # runs against another tree (FDTDX_REPO override: seeded changes, historical commits) keep their evidence apart
+    ev_dir = VERIF / "evidence" if str(core.REPO) == "/repo" else VERIF / "replays" / "_evidence_other_tree"
+    ev_dir.mkdir(parents=True, exist_ok=True)
+    core.write_json(ev_dir / f"{pid}.json", ev)
     print(f"[{pid}] tier={tier} seed={seed} cases={len(cases)} compared={n_cmp} agree={n_ok} "
           f"obligations={cov.get('obligations')} discharged={cov.get('discharged')} violations={n_viol} wall={ev['wall_s']}s")
     return rc
